@@ -189,7 +189,7 @@ func purlOf(n *sbom.Node) string {
 
 func H_C16_Match() {
 	nl := &sbom.NodeList{}
-	n0 := rt.NondetLen("n", rt.Bound("NM", 2, 3))
+	n0 := rt.NondetLen("n", rt.Bound("NM", 2, 2))
 	for i := 0; i < n0; i++ {
 		nl.Nodes = append(nl.Nodes, c16nodeH("l", true, rt.Bound("LH", 1, 2), 2))
 	}
